@@ -177,6 +177,44 @@ def check(results):
                 visit(k, d + 1)
         visit(root, 0)
         return any(len(v) > 1 for v in depths.values())
+    def type_nested_in_itself(obs, mod, typ, xml):
+        """does the document hold a value of some struct type inside a value of the same struct type (under whatever element
+        names)? Decided from the derive input syn read from the emitted file: element -> member by its rename -> member's type."""
+        try:
+            root = ET.fromstring(xml.encode("utf-8"))
+        except ET.ParseError:
+            return False
+        index = {(st["mod"], st["name"]): st for st in obs["structs"]}
+
+        def target(m, leaf):
+            if "::" in leaf:
+                km, kn = leaf.rsplit("::", 1)
+                return (km.split("::")[-1], kn)
+            return (m, leaf)
+
+        def local(tag):
+            return tag.rsplit("}", 1)[-1]
+
+        def walk(e, key, path, depth=0):
+            st = index.get(key)
+            if st is None or depth > 40:
+                return False
+            for k in e:
+                ln = local(k.tag)
+                for f in st["fields"]:
+                    if f["attr"] or f["text"]:
+                        continue
+                    if (f["rename"] or f["name"]) == ln:
+                        t = target(key[0], f["leaf"])
+                        if t in index:
+                            if t in path or t == key:
+                                return True
+                            if walk(k, t, path | {key}, depth + 1):
+                                return True
+                        break
+            return False
+        return walk(root, (mod, typ), frozenset())
+
     runtime_limits = 0
     for r in results:
         if r["side"] != "impl" or r["status"] in ("missing-type", "not-run"):
@@ -185,6 +223,7 @@ def check(results):
     lines = []
     plan = []
     skipped = 0
+    case_obs, case_mod = {}, {}
     for cid, (case, rs) in by_case.items():
         obs = g.parse_obs(case["impl_obs"])
         prog = program_lines(obs)
@@ -193,6 +232,9 @@ def check(results):
             continue
         A = g.assignment(obs)
         uri2mod = {u: m for m, u in A["mod2uri"].items()}
+        case_obs[cid] = obs
+        for r in rs:
+            case_mod[r["rid"]] = uri2mod.get(r["inst"]["uri"]) or "-"
         lines.append("RESET")
         lines += prog
         for r in rs:
@@ -267,7 +309,8 @@ def check(results):
                 # same shape, milder symptom: the runtime returns a value but has mixed up the nested elements; the hand-written
                 # reference structs come back with the very same document, so this is the runtime's limit, not the generator's
                 rb, reb = rt.infoset(ref_out.get(r["rid"]) or "")
-                if nested_in_itself(r["inst"]["xml"]) and ref_status.get(r["rid"]) == "ok" and reb is None and not rt.first_diff(canon_local_attrs(b), canon_local_attrs(rb)):
+                recursive_shape = nested_in_itself(r["inst"]["xml"]) or type_nested_in_itself(case_obs.get(id(r["case"]), {"structs": []}), case_mod.get(r["rid"], "-"), r["inst"]["type"], r["inst"]["xml"])
+                if recursive_shape and ref_status.get(r["rid"]) == "ok" and reb is None and not rt.first_diff(canon_local_attrs(b), canon_local_attrs(rb)):
                     runtime_limits += 1
                     continue
                 dis.append((r, "reserialised infoset: real vs model: " + d))
